@@ -14,8 +14,9 @@ import (
 // boolSummary: for each truth value, the atoms common to all paths on which fn may return it,
 // expressed over the callee's parameter keys ($0, $1, …).
 type boolSummary struct {
-	True, False []Atom
-	ok          bool
+	True, False         []Atom   // atoms common to all paths returning that value
+	TrueSets, FalseSets [][]Atom // per-path conjunctions (DNF)
+	ok                  bool
 }
 
 func (c *Ctx) boolSummaryOf(fn *ssa.Function) *boolSummary {
@@ -54,6 +55,7 @@ func (c *Ctx) boolSummaryOf(fn *ssa.Function) *boolSummary {
 	}
 	s.True = commonAtoms(trueSets)
 	s.False = commonAtoms(falseSets)
+	s.TrueSets, s.FalseSets = trueSets, falseSets
 	s.ok = true
 	return s
 }
@@ -210,4 +212,40 @@ func (c *Ctx) dynTypesOf(v ssa.Value, set map[string]bool, seen map[ssa.Value]bo
 			set["⊤"] = true
 		}
 	}
+}
+
+// callCompatible: can the helper call atom hold together with the given atoms? (some path of the
+// helper returning the required value is not contradicted by them)
+func (c *Ctx) callCompatible(a Atom, given []Atom) bool {
+	if a.Kind != "call" || a.Fn == nil || !inModule(a.Fn) {
+		return true
+	}
+	s := c.boolSummaryOf(a.Fn)
+	if !s.ok {
+		return true
+	}
+	var args []string
+	for _, v := range a.Args {
+		args = append(args, c.key(v, nil))
+	}
+	sets := s.TrueSets
+	if !a.Pos {
+		sets = s.FalseSets
+	}
+	if len(sets) == 0 {
+		return false
+	}
+	for _, set := range sets {
+		var sub []Atom
+		for _, x := range set {
+			y := x
+			y.Subj = substParams(x.Subj, args)
+			y.Val = substParams(x.Val, args)
+			sub = append(sub, y)
+		}
+		if !contradicts(given, sub) {
+			return true
+		}
+	}
+	return false
 }
